@@ -49,6 +49,7 @@ type vc03Machine struct {
 	hist    []string
 	classes map[string]bool
 	nt      bool
+	opposed bool // sources 0 and 1 hold small vs full/empty containers under the same keys
 }
 
 func (s *vc03Machine) log(format string, args ...interface{}) {
@@ -114,7 +115,52 @@ func (s *vc03Machine) wrote(name string, keys map[uint64]bool) {
 }
 
 func (s *vc03Machine) pick(t *rapid.T, label string) *vc03Value {
+	switch rapid.IntRange(0, 3).Draw(t, label+".how") {
+	case 0:
+		// the newest value: usually the result of the last derivation
+		return s.vals[len(s.vals)-1]
+	case 1:
+		// one of the first two sources (in "opposed" histories: the small/unfrozen one and the full/empty one)
+		if len(s.vals) >= 2 {
+			return s.vals[rapid.IntRange(0, 1).Draw(t, label+".src")]
+		}
+	}
 	return s.vals[rapid.IntRange(0, len(s.vals)-1).Draw(t, label)]
+}
+
+// vc03OpposedSpec builds a source that holds a container under EVERY key of the pool. role "small": small array/run/bitmap
+// containers; role "extreme": full, full-minus-one, empty (existing container without values) or small containers. Two such
+// sources meet, key by key, in the short cuts of the container-level intersect/union/difference/xor dispatchers
+// (full / empty operand), which hand back one of their operands instead of computing a new container.
+func (s *vc03Machine) opposedSpec(t *rapid.T, label, role string) vBitmapSpec {
+	var sp vBitmapSpec
+	for i, k := range s.keys {
+		l := fmt.Sprintf("%s.c%d", label, i)
+		shape := "small"
+		if role == "extreme" {
+			shape = rapid.SampledFrom([]string{"full", "full", "fullMinus1", "empty", "small"}).Draw(t, l+".role")
+		}
+		var vals []uint16
+		switch shape {
+		case "full", "fullMinus1":
+			hole := -1
+			if shape == "fullMinus1" {
+				hole = rapid.SampledFrom([]int{0, 1, 63, 64, 32768, 65534, 65535}).Draw(t, l+".hole")
+			}
+			for v := 0; v < 65536; v++ {
+				if v != hole {
+					vals = append(vals, uint16(v))
+				}
+			}
+		case "empty":
+		default:
+			shape, vals = vGenVals(t, l, false)
+		}
+		sp.Conts = append(sp.Conts, vContSpec{Key: k, Shape: shape, Vals: vals, Typ: vTypeFor(t, l, vals)})
+	}
+	// encodings whose containers are not frozen yet (a frozen operand hides a missing Freeze)
+	sp.Enc = rapid.SampledFrom([]string{"built", "built", "btree", "added", "addedBtree", "optimized", "decoded", "decodedBtree"}).Draw(t, label+".enc")
+	return sp
 }
 
 func (s *vc03Machine) checkAll(t *rapid.T, step string) {
@@ -149,7 +195,15 @@ func (s *vc03Machine) newName(prefix string) string {
 
 func (s *vc03Machine) mkSource(t *rapid.T, idx int) *vc03Value {
 	label := fmt.Sprintf("src%d", idx)
-	sp := vGenBitmapSpec(t, label, s.keys, rapid.IntRange(0, 2).Draw(t, label+".big") == 0)
+	var sp vBitmapSpec
+	switch {
+	case s.opposed && idx == 0:
+		sp = s.opposedSpec(t, label, "small")
+	case s.opposed && idx == 1:
+		sp = s.opposedSpec(t, label, "extreme")
+	default:
+		sp = vGenBitmapSpec(t, label, s.keys, rapid.IntRange(0, 2).Draw(t, label+".big") == 0)
+	}
 	v := &vc03Value{name: s.newName("s"), m: sp.model()}
 	if rapid.IntRange(0, 2).Draw(t, label+".mapped") == 0 {
 		// decoded from bytes we keep: containers are mapped onto v.backing
@@ -481,6 +535,16 @@ func TestVerifC03_RoaringIsolation(t *testing.T) {
 		s := &vc03Machine{classes: map[string]bool{}}
 		s.keys = vGenKeys(t)
 		nsrc := rapid.IntRange(1, 3).Draw(t, "nsources")
+		s.opposed = rapid.Bool().Draw(t, "opposed")
+		if s.opposed {
+			s.classes["opposedSources"] = true
+			if nsrc < 2 {
+				nsrc = 2
+			}
+			if len(s.keys) > 3 {
+				s.keys = s.keys[:3] // full containers are expensive to re-read after every step
+			}
+		}
 		for i := 0; i < nsrc; i++ {
 			s.add(s.mkSource(t, i))
 		}
